@@ -206,6 +206,27 @@ def oracle_gfa1(case):
                 out.append(('path tags not carried over', tagset(f[4:]), tagset(o[3:])))
     if out:
         return out
+    # conversion follows the line as it is now: after an overlap was edited in place (one more matched base) the intervals of
+    # the E line are those of the edited alignment, as a Gfa read from the written text gives them
+    edited = False
+    for l in list(G.dovetails) + list(G.containments):
+        ov = l.overlap
+        if isinstance(ov, g.CIGAR) and len(ov) > 0 and ov[0].code == 'M':
+            r0 = impl.outcome(lambda: l.to_gfa2_s())           # a first conversion, so that anything remembered is remembered
+            ov[0].length = ov[0].length + 1
+            if impl.outcome(lambda: g.Gfa(str(G), vlevel=1))[0] != 'ok':
+                ov[0].length = ov[0].length - 1                # the longer overlap does not fit: leave this line alone
+                continue
+            edited = True
+    if edited:
+        a = impl.outcome(lambda: sorted(x for x in str(G.to_gfa2()).split('\n') if x.startswith('E\t')))
+        b = impl.outcome(lambda: sorted(x for x in str(g.Gfa(str(G), vlevel=1).to_gfa2()).split('\n') if x.startswith('E\t')))
+        def noid(ls):
+            return sorted('\t'.join(x.split('\t')[2:]) for x in ls)
+        if a[0] == 'ok' and b[0] == 'ok' and noid(a[1]) != noid(b[1]):
+            out.append(('after an overlap was edited in place the conversion differs from the conversion of the written text',
+                        [x for x in noid(b[1]) if x not in noid(a[1])][:2], [x for x in noid(a[1]) if x not in noid(b[1])][:2]))
+            return out
     # there and back
     try:
         B = G2.to_gfa1()
